@@ -81,7 +81,23 @@ Proof. exact refuted_binding_alias. Qed.
     (excludes F-C10b); no collection other than the root has a sub-collection
     as default (excludes F-C10a); configurations type-consistent along every
     path; the flattened names pairwise distinct.  What is missing from full
-    strength is exactly F-C10a, F-C10b and mixed auto-dash settings. *)
+    strength is exactly F-C10a, F-C10b, mixed auto-dash settings -- and the
+    following premise, which is NOT backed by a finding:
+
+    DISCLOSURE ([compat_down], part of [deep_guard] and a premise of the two
+    reference theorems below).  It is the type-consistency premise of C17: no
+    settings path is a section in one collection of the path and a plain value
+    in another.  Lookup ([collection[name]], [name in collection]) merges the
+    configurations along the path before it answers, and merging a section
+    with a plain value raises AmbiguousMergeError -- the documented outcome of
+    such a merge (invoke.config.merge_dicts), which is why C17 leaves those
+    trees outside its statement.  In such a tree the parser still accepts the
+    name while lookup raises instead of answering, so the equivalence "accepted
+    iff lookup resolves" does not hold there; this is not registered as a
+    defect of the code (the error is the documented one and the task could not
+    be given a configuration anyway), the theorems simply say nothing about
+    those trees, and the generated cases of the check keep configurations
+    type-consistent (harness/props/c10.py, assumptions). *)
 Theorem C10_cli_iff_lookup_partial : forall c n,
   deep_guard c = true -> n <> "" -> name_ok (c_auto_dash c) n (model_nobs c n) = true.
 Proof. exact deep_names_agree. Qed.
@@ -384,3 +400,42 @@ Example C10_example_json_listing :
       [([], "top", 1, ["t-al"]); (["sub"], "my-task", 2, ["al-x"]);
        (["sub"; "in-ner"], "deep", 3, [])].
 Proof. eexists. split; [vm_compute; reflexivity|]. repeat split; vm_compute; reflexivity. Qed.
+
+(** * Scoped and depth-limited listings (Proofs/C10_scoped.v)
+
+    [--list <root>] and [--list-depth N] are modelled by the general row
+    generator [pair_rows] ([Program._make_pairs] with its two switches).
+
+    Model sanity lemma: without a root and without a limit the general
+    generator IS the plain one the theorems above are about, for every tree. *)
+From InvokeVerif Require Import Proofs.C10_scoped.
+
+Theorem C10_scoped_generator_extends_plain : forall c anc,
+  pair_rows false false 0 c anc = flat_rows c anc /\ pair_rows true false 0 c anc = nested_rows c anc.
+Proof. intros c anc. split; [apply pair_rows_flat | apply pair_rows_nested]. Qed.
+
+(** Every tree of the small scope (192 scripts) x 15 scopes (no root / sub /
+    sub.in-ner / a misspelled root / a task name as root, each with no limit,
+    depth 1, depth 2), in all three formats, inside the guards of the listing
+    statement (uniform spelling; for json: bindings by own names): the rows the
+    model predicts satisfy the specification [listing_at] -- same bindings once
+    each, relative names with leading dots, truncated collections with their
+    tallies, unknown roots refused.  48 trees lie inside both guards. *)
+Theorem C10_scoped_listing_bounded_2880 :
+  scoped_sweep (sweep_scripts true) = true /\
+  List.length (sweep_scripts true) * List.length scoped_views = 2880.
+Proof. split; [exact scoped_bounded | apply scoped_sweep_size]. Qed.
+
+(** (F-C10e) `--list docs --list-depth 2`, flat: the collection cut off at the
+    limit is shown as "api.deep" -- every other name of the scoped listing has
+    the leading dot (".api.gen").  Nested format, limit 1 and the unscoped
+    listing of the same tree are as specified. *)
+Theorem C10_scoped_listing_refuted_truncated_row :
+  exists c, build fc10e_script = Ok c /\
+            script_clean fc10e_script = true /\ keys_normalized (c_auto_dash c) c = true /\
+            model_rows_at c 1 (Some "docs") 2 =
+              Ok [(0, ".build", [], Some 1); (0, ".api.gen", [], Some 2); (0, "api.deep", ["1 tasks"], None)] /\
+            judged c 1 (Some "docs") 2 = false /\
+            judged c 2 (Some "docs") 2 = true /\ judged c 1 (Some "docs") 1 = true /\
+            judged c 1 None 2 = true.
+Proof. exact refuted_truncated_row. Qed.
